@@ -257,6 +257,18 @@ pub fn judge(case: &Case, obs: &Obs) -> (Vec<Violation>, BTreeMap<String, u64>, 
         v.push(Violation { class: "build-failed".into(), detail: format!("application failed to build: {}", e) });
         return (v, reach, false);
     }
+    // the command-line runner builds the application inside the explored phase. The application measures its
+    // own loading times with the wall clock and refuses to start when one of them comes out negative - which is
+    // what a wall clock set back during loading gives. No batch was run: nothing the property speaks about
+    // happened (recorded as an observation in DESIGN.md, not a finding).
+    if cli && obs.stats.faults.get("wall_clock_step_back").copied().unwrap_or(0) > 0 {
+        if let Some(Some(Err(e))) = obs.runs.get(0) {
+            if e.contains("Source duration value is out of range") {
+                bump("app_refused_to_start_after_wall_clock_step", 1);
+                return (v, reach, false);
+            }
+        }
+    }
     for p in &obs.panics {
         v.push(Violation { class: format!("panic@{}", p.location), detail: format!("panic: {} at {} (thread {})", p.message, p.location, p.thread) });
     }
@@ -449,6 +461,11 @@ impl Check for C19 {
                 _ => 1000,
             };
             c.world.per_run_sinks = None;
+            // (the runner builds the application inside the explored phase, and an application that finds the wall
+            // clock set back while it loads refuses to start: keep that to a few runs)
+            if seed % 8 != 0 {
+                c.simcfg.wall_step_rate = 0.0;
+            }
             let mut garbage: Vec<Value> = vec![];
             if r.chance(0.35) {
                 for _ in 0..r.range(1, 3) {
